@@ -4,7 +4,7 @@ from . import VERIF, build
 
 EVID = os.path.join(VERIF, "evidence")
 REPLAYS = os.path.join(VERIF, "replays")
-KF_FILE = os.path.join(VERIF, "known_findings.json")
+KF_DIR = os.path.join(VERIF, "findings")
 
 TRUSTED_BASE = [
     "Coq 8.16.1 kernel (coqc); vm_compute used for the *_refuted witnesses, the Examples and the in-Coq cross-check of extraction; no native_compute",
@@ -42,10 +42,13 @@ class Ctx:
 
 
 def load_kf(prop):
-    if not os.path.exists(KF_FILE):
-        return []
-    data = json.load(open(KF_FILE))
-    return [e for e in data.get("findings", []) if prop in e.get("properties", [e.get("property")])]
+    import glob
+    out = []
+    for f in sorted(glob.glob(os.path.join(KF_DIR, "*.json"))):
+        e = json.load(open(f))
+        if prop in e.get("properties", []):
+            out.append(e)
+    return out
 
 
 def write_replay(prop, payload):
